@@ -158,7 +158,13 @@ func NewRunner() (*Runner, error) {
 }
 
 // Cleanup removes the scratch root.
-func (r *Runner) Cleanup() { os.RemoveAll(r.Scratch) }
+func (r *Runner) Cleanup() {
+	if os.Getenv("VERIF_KEEP") != "" {
+		fmt.Println("scratch kept at", r.Scratch)
+		return
+	}
+	os.RemoveAll(r.Scratch)
+}
 
 // JobDir makes a scratch directory for a job.
 func (r *Runner) JobDir(name string) string {
@@ -471,6 +477,11 @@ func (o *Outcome) Finish(verifDir string) int {
 
 	// replay files for fresh violations (deduplicated by signature)
 	os.MkdirAll(filepath.Join(verifDir, "replays"), 0755)
+	if old, _ := filepath.Glob(filepath.Join(verifDir, "replays", fmt.Sprintf("%s-%s-seed%d-*.json", o.Property, o.Tier, o.Seed))); len(old) > 0 {
+		for _, f := range old {
+			os.Remove(f)
+		}
+	}
 	seenSig := map[string]bool{}
 	for i, v := range fresh {
 		if seenSig[v.Signature] {
